@@ -16,7 +16,7 @@
         rates[s][t] * V_s / 1000 * (T / 60). *)
 From Coq Require Import ZArith QArith Qcanon Qminmax Reals Lra List Bool.
 From ACN Require Import Base.Num Base.NumR Gen.Battery_Q Gen.Battery_R Model.EVSE Model.Ledger Model.LedgerR Model.LedgerQ
-                        Model.LedgerQc Proofs.LedgerField Proofs.Ledger Proofs.LedgerQc.
+                        Model.LedgerQc Proofs.LedgerField Proofs.Ledger Proofs.LedgerQc Proofs.LedgerResume.
 Import ListNotations.
 Open Scope R_scope.
 
@@ -195,6 +195,20 @@ Theorem C02_total_rational : forall (T : Qc) net ops st,
   fsum QcO (map e_energy (all_evs st)) = fsum QcO (map (column_energy QcO T net) (cols st)).
 Proof. exact total_Qc. Qed.
 Print Assumptions C02_total_rational.
+
+(* ---- check-points / interruptions: for ANY carrier and ANY kernels, a run can be cut at any point and continued from
+   the state reached there, so every statement above also holds for a simulation that was interrupted and resumed
+   (same object, or dumped and reloaded); a prefix that aborts makes the whole run abort.  No axioms. ---- *)
+Theorem C02_resume : forall F B (O : fops F) (K : kern F B) (T : F) net (a b : list (@op F B)) st,
+  simulate O K T net (a ++ b) = Some st
+  <-> exists st1, simulate O K T net a = Some st1 /\ run O K T net st1 b = Some st.
+Proof. exact (fun F B O K => simulate_resume O K). Qed.
+Print Assumptions C02_resume.
+
+Theorem C02_prefix_abort : forall F B (O : fops F) (K : kern F B) (T : F) net (a b : list (@op F B)),
+  simulate O K T net a = None -> simulate O K T net (a ++ b) = None.
+Proof. exact (fun F B O K => simulate_prefix_abort O K). Qed.
+Print Assumptions C02_prefix_abort.
 
 (* the executable twin (what the correspondence check runs) on a run with all three battery classes,
    two voltages, back-to-back reuse of station 0 and a pilot addressed to a vacant station:
